@@ -21,8 +21,8 @@ MA == Dcl(0, 5, 8, <<>>,
        <<>>)
 (* u6 base with default: Option<enum> field, array of u2 with stride 2, write-only bit *)
 E3 == [name |-> "E", n |-> 2, exh |-> "false",
-       variants |-> << [name |-> "A", d |-> <<>>, cfg |-> "none", form |-> "lit"], [name |-> "B", d |-> <<0>>, cfg |-> "none", form |-> "lit"],
-                       [name |-> "D", d |-> <<0, 1>>, cfg |-> "none", form |-> "lit"] >>]
+       variants |-> << [name |-> "A", d |-> <<>>, cfg |-> "none", form |-> "lit", doc |-> FALSE], [name |-> "B", d |-> <<0>>, cfg |-> "none", form |-> "lit", doc |-> FALSE],
+                       [name |-> "D", d |-> <<0, 1>>, cfg |-> "none", form |-> "lit", doc |-> FALSE] >>]
 MB == Dcl(1, 6, 8, << <<0, 5>> >>,
        << Fld("k", "optenum", 2, 1, << <<0, 1>> >>, FALSE, <<>>, <<>>, "rw"),
           Fld("arr", "uarb", 2, 0, << <<2, 3>> >>, FALSE, <<2>>, <<>>, "rw"),
